@@ -24,8 +24,10 @@ COQ = os.path.join(VERIF, "coq")
 EXTRACT = os.path.join(VERIF, "extract")
 HARNESS = os.path.join(VERIF, "harness")
 BUILD = os.path.join(VERIF, "build")
-EVIDENCE = os.path.join(VERIF, "evidence")
-REPLAYS = os.path.join(VERIF, "replays")
+# developer runs against a seeded change can divert what they write (VERIF_OUT)
+_OUT = os.environ.get("VERIF_OUT", VERIF)
+EVIDENCE = os.path.join(_OUT, "evidence")
+REPLAYS = os.path.join(_OUT, "replays")
 CORPUS = os.path.join(VERIF, "corpus")
 NPROC = os.cpu_count() or 4
 
